@@ -1,12 +1,12 @@
 SPECIFICATION Spec
 CONSTANTS
   Orders <- OrdersAll
-  Dts <- DtsT
-  Targets <- TargT
-  TsTargets <- TargT
+  Dts <- DtsQ
+  Targets <- TargW
+  TsTargets <- TargX
   MaxTs = 1
-  MaxSweeps = 0
-  MaxQueued = 1
+  MaxSweeps = 1
+  MaxQueued = 2
   PublicQueue = TRUE
   DtChangeQueued = FALSE
   FixQ = FALSE
